@@ -28,6 +28,8 @@ type Thread struct {
 	vc        []int // vector clock (race detection)
 	signaled  bool
 	pos       token.Pos
+	visible   bool // the sync operation being executed was called from instrumentable repo code
+	noPoints  int  // >0: inside a composite primitive (Cond.Wait): no scheduling points
 }
 
 type deadlockEvent struct{ detail string }
@@ -35,6 +37,7 @@ type deadlockEvent struct{ detail string }
 type schedState struct {
 	e       *Engine
 	trace   []int // thread ids in scheduling order (switch points only)
+	points  []int // thread id at every visible scheduling point, in execution order (native replay script)
 	preempt int
 }
 
@@ -95,8 +98,7 @@ func (th *Thread) spawn(fr *frame, pos token.Pos, fn Value, args []Value) {
 			e.race.exit(nt)
 		}
 	}()
-	// the new thread becomes runnable; a scheduling point
-	th.yield("go")
+	// the new thread becomes runnable (the spawning thread keeps running)
 }
 
 // killAll terminates every thread goroutine other than the main one.
@@ -198,35 +200,31 @@ func (s *schedState) threadExit(t *Thread) {
 }
 
 // yield is a scheduling point at which the current thread could continue.
+// Only points in instrumentable repo code ("visible") are preemption
+// candidates and are recorded for the native replay.
 func (th *Thread) yield(what string) {
 	e := th.eng
 	s := e.sched
-	if len(e.threads) == 1 {
+	if !th.visible || th.noPoints > 0 {
 		return
 	}
-	if e.w.cfg.Sched != "explore" {
-		return // canonical: run until block
-	}
-	rs := s.runnable()
-	if len(rs) <= 1 {
-		return
-	}
-	if s.preempt >= e.w.cfg.Preempt {
-		return
-	}
-	// decision: 0 = continue, k = preempt in favour of k-th other runnable thread
-	var others []*Thread
-	for _, t := range rs {
-		if t != th {
-			others = append(others, t)
+	if e.w.cfg.Sched == "explore" && len(e.threads) > 1 && s.preempt < e.w.cfg.Preempt {
+		var others []*Thread
+		for _, t := range s.runnable() {
+			if t != th {
+				others = append(others, t)
+			}
+		}
+		if len(others) > 0 {
+			// decision: 0 = continue, k = preempt in favour of k-th other runnable thread
+			c := e.path.Choose(len(others) + 1)
+			if c != 0 {
+				s.preempt++
+				s.switchTo(th, others[c-1])
+			}
 		}
 	}
-	c := e.path.Choose(len(others) + 1)
-	if c == 0 {
-		return
-	}
-	s.preempt++
-	s.switchTo(th, others[c-1])
+	s.points = append(s.points, th.id)
 }
 
 // block parks the current thread until cond() holds.
@@ -319,6 +317,7 @@ func (th *Thread) mutexLock(p *Value) {
 func (th *Thread) mutexUnlock(p *Value) {
 	e := th.eng
 	m := e.mutex(p)
+	th.yield("Unlock")
 	if !m.locked {
 		panic(targetPanic{Iface{types.Typ[types.String], Str{s: "fatal error: sync: unlock of unlocked mutex"}}})
 	}
@@ -326,7 +325,6 @@ func (th *Thread) mutexUnlock(p *Value) {
 		e.race.release(th, &m.vc)
 	}
 	m.locked = false
-	th.yield("Unlock")
 }
 
 func (th *Thread) mutexRLock(p *Value) {
@@ -343,6 +341,7 @@ func (th *Thread) mutexRLock(p *Value) {
 func (th *Thread) mutexRUnlock(p *Value) {
 	e := th.eng
 	m := e.mutex(p)
+	th.yield("RUnlock")
 	if m.readers <= 0 {
 		panic(targetPanic{Iface{types.Typ[types.String], Str{s: "fatal error: sync: RUnlock of unlocked RWMutex"}}})
 	}
@@ -350,7 +349,6 @@ func (th *Thread) mutexRUnlock(p *Value) {
 		e.race.releaseJoin(th, &m.vc)
 	}
 	m.readers--
-	th.yield("RUnlock")
 }
 
 func (e *Engine) condOf(p *Value) *condState {
@@ -390,6 +388,8 @@ func (th *Thread) condWait(p *Value) {
 	e := th.eng
 	c := e.condOf(p)
 	l := th.condLocker(p)
+	th.yield("Cond.Wait")
+	th.noPoints++
 	c.waiters = append(c.waiters, th)
 	th.signaled = false
 	th.lockerCall(l, "Unlock")
@@ -398,11 +398,13 @@ func (th *Thread) condWait(p *Value) {
 		e.race.acquire(th, &c.vc)
 	}
 	th.lockerCall(l, "Lock")
+	th.noPoints--
 }
 
 func (th *Thread) condBroadcast(p *Value, all bool) {
 	e := th.eng
 	c := e.condOf(p)
+	th.yield("Broadcast")
 	if e.race != nil {
 		e.race.release(th, &c.vc)
 	}
@@ -415,7 +417,6 @@ func (th *Thread) condBroadcast(p *Value, all bool) {
 		c.waiters[0].signaled = true
 		c.waiters = c.waiters[1:]
 	}
-	th.yield("Broadcast")
 }
 
 func (e *Engine) wgOf(p *Value) *wgState {
@@ -430,6 +431,7 @@ func (e *Engine) wgOf(p *Value) *wgState {
 func (th *Thread) wgAdd(p *Value, d int64) {
 	e := th.eng
 	w := e.wgOf(p)
+	th.yield("WaitGroup.Add")
 	if e.race != nil {
 		e.race.release(th, &w.vc)
 	}
@@ -437,7 +439,6 @@ func (th *Thread) wgAdd(p *Value, d int64) {
 	if w.n < 0 {
 		panic(targetPanic{Iface{types.Typ[types.String], Str{s: "sync: negative WaitGroup counter"}}})
 	}
-	th.yield("WaitGroup.Add")
 }
 
 func (th *Thread) wgWait(p *Value) {
@@ -481,6 +482,7 @@ func (th *Thread) chanClose(c *Chan) {
 		th.goPanic("close of closed channel")
 	}
 	c.closed = true
+	th.visible = false
 	th.yield("close")
 }
 
@@ -491,6 +493,7 @@ func (th *Thread) chanSend(c *Chan, v Value) {
 	if c.closed {
 		th.goPanic("send on closed channel")
 	}
+	th.visible = false
 	th.yield("send")
 	if c.cap == 0 {
 		// rendezvous approximated by a one-slot buffer drained by the receiver
@@ -511,6 +514,7 @@ func (th *Thread) chanRecv(c *Chan, commaOk bool, et types.Type) Value {
 	if c == nil {
 		th.block("recv on nil chan", func() bool { return false })
 	}
+	th.visible = false
 	th.yield("recv")
 	th.block("chan recv", func() bool { return len(c.buf) > 0 || c.closed })
 	var v Value
@@ -561,6 +565,7 @@ func (th *Thread) selectInstr(fr *frame, instr *ssa.Select) Value {
 		}
 		return -1
 	}
+	th.visible = false
 	th.yield("select")
 	idx := ready()
 	if idx < 0 && instr.Blocking {
